@@ -241,6 +241,13 @@ def _c17d_cases(tier, seed):
                 if rep % 4 == 0:
                     grids[0] = np.array([1e-9, 2e-9, 3e-9, 4e-9])
                     grids[1] = np.array([2e-9, 4e-9, 6e-9, 8e-9])
+            if d >= 2 and rep % 2 == 1:
+                # different grids that agree in first element, last element and length (only the interior differs)
+                base = next(g for g in gl[rnd.randrange(len(gl)):] + gl if len(g) >= 4)
+                for c in range(d):
+                    g2 = base.copy()
+                    g2[1:-1] = np.sort(base[0] + (base[-1] - base[0]) * np.array(sorted(rnd.random() for _ in range(len(base) - 2))))
+                    grids[c] = g2 if c else base
             rows = rnd.choice([1, 2, 5])
             data = np.column_stack([rnd.choice(list(_probe_values(g, rnd))) * np.ones(rows) if rows == 1 else
                                     np.array([rnd.choice(list(_probe_values(g, rnd))) for _ in range(rows)])
@@ -269,7 +276,8 @@ def _c17d_check(reg, case):
 
 
 StandIn("C17/digitize_data", "C17",
-        "1-3 columns, 6 random line-ups of the get_closest grids per column count incl. nearly-equal neighbouring grids; "
+        "1-3 columns, 6 random line-ups of the get_closest grids per column count incl. nearly-equal neighbouring grids and "
+        "grids that agree in both end-points and length but not in between; "
         "1/2/5 rows", "1-6 columns, 30 line-ups", _c17d_cases, _c17d_check)
 
 
@@ -638,6 +646,11 @@ def _c19_env_cases(tier, seed):
     rnd = random.Random(seed + 4)
     n = 100 if tier == "quick" else 2000
     for _ in range(n):
+        if rnd.random() < 0.3:
+            # losses need not be positive (a log-likelihood): zero and negative references
+            yield {"first": rnd.choice([0.0, -1.0, -2.5, 3.0]),
+                   "losses": [rnd.choice([0.0, -1.0, -2.0, -0.5, 1.0, -7.0, 4.0]) for _ in range(rnd.randint(1, 8))]}
+            continue
         yield {"first": rnd.choice([10.0, 1.0, 0.5, 1e-3, 7.0]),
                "losses": [rnd.choice([12.0, 9.0, 8.0, 0.4, 0.2, 1e-4, 6.5, 20.0]) for _ in range(rnd.randint(1, 8))]}
 
@@ -648,6 +661,8 @@ def _c19_env_check(reg, case):
     env._curr_best_loss = case["first"]  # noqa: SLF001
     best = case["first"]
     for l in case["losses"]:
+        if best == 0 and l < best:
+            return None     # O-19: an improvement on a reference of exactly 0 has no relative size (stated precondition)
         r = env.get_reward(None, l)
         exp = (best - l) / best if l < best else 0.0
         if l < best:
@@ -659,7 +674,7 @@ def _c19_env_check(reg, case):
     return None
 
 
-StandIn("C19/reward-histories", "C19", "100 seeded loss histories (improving and non-improving) of 1-8 observations",
+StandIn("C19/reward-histories", "C19", "100 seeded loss histories (improving and non-improving; 30% with zero / negative references) of 1-8 observations",
         "2000 histories", _c19_env_cases, _c19_env_check)
 
 
